@@ -953,13 +953,24 @@ func rangeEqual(x, y rangeValue) bool {
 }
 
 func (r rangeValue) contains(x Int) bool {
-	x32, err := AsInt32(x)
-	if err != nil {
-		return false // out of range
+	x64, ok := x.Int64()
+	if !ok || int64(int(x64)) != x64 {
+		return false // out of range of int: not an element
 	}
-	delta := x32 - r.start
-	quo, rem := delta/r.step, delta%r.step
-	return rem == 0 && 0 <= quo && quo < r.len
+	// The distance from start is computed as a uint: it cannot overflow.
+	var delta, step uint
+	if r.step > 0 {
+		if int(x64) < r.start {
+			return false
+		}
+		delta, step = uint(x64)-uint(r.start), uint(r.step)
+	} else {
+		if int(x64) > r.start {
+			return false
+		}
+		delta, step = uint(r.start)-uint(x64), -uint(r.step)
+	}
+	return delta%step == 0 && delta/step < uint(r.len)
 }
 
 type rangeIterator struct {
